@@ -33,7 +33,9 @@ THEOREMS = ["fasta_read_write", "fasta_rewrap_invariant", "fasta_file_lines", "f
             # round 4: esl-alistat on Stockholm/Pfam in digital mode with --list/--icinfo/--rinfo/--iinfo/--cinfo
             "alistat_column_counters", "alistat_count_cells", "alistat_rfpos_cells",
             # round 4: esl-compstruct
-            "compstruct_correct_le_pairs", "compstruct_strict_correct_symmetric", "compstruct_self_is_perfect", "compstruct_mathews_relaxes"]
+            "compstruct_correct_le_pairs", "compstruct_strict_correct_symmetric", "compstruct_self_is_perfect", "compstruct_mathews_relaxes",
+            # round 4: esl-compalign
+            "compalign_self_is_perfect"]
 
 SQFORMATS = ["fasta", "embl", "genbank", "uniprot", "ddbj", "daemon", "hmmpgmd", "ncbi", "fmindex"]
 MSAFORMATS = ["stockholm", "pfam", "a2m", "afa", "psiblast", "clustal", "clustallike", "selex", "phylip", "phylips"]
@@ -1518,7 +1520,7 @@ def ref_alimask_pp(rng, i):
     if rng.random() < 0.3:      # a column of gaps only
         k = rng.randrange(alen); rows = [(n, s_[:k] + "-" + s_[k + 1:]) for n, s_ in rows]
     hi = rng.random() < 0.5
-    grpp = {k: "".join("." if c in "-._~" else rng.choice("9*****98" if hi else "0123456789*") for c in s_) for k, (n, s_) in enumerate(rows)}
+    grpp = {k: "".join("." if c in "-._~" else rng.choice("*******9" if hi else "0123456789*") for c in s_) for k, (n, s_) in enumerate(rows)}
     rf = None
     if rng.random() < 0.5:
         rf = "".join(rng.choice("xxxX") if rng.random() < 0.7 else "." for _ in range(alen))
@@ -1527,7 +1529,7 @@ def ref_alimask_pp(rng, i):
                            sscons=(balanced_ss(rng, alen) if rng.random() < 0.3 else None))
     args = ["-p"]
     w = rng.random()
-    if w < 0.25: args += ["--pavg", rng.choice(["0.5", "0.9", "0.95", "0.3", "0.0", "1.0"])]
+    if w < 0.25: args += ["--pavg", rng.choice(["0.5", "0.9", "0.95", "0.96", "0.975", "0.3", "0.0", "1.0"])]   # 0.96/0.975: a column of '*' only averages 0.975
     elif w < 0.45:
         ppc = "".join(rng.choice("0123456789*") if any(s_[c] not in "-._~" for _, s_ in rows) else "." for c in range(alen))
         text = text.replace("//\n", "#=GC PP_cons   " + ppc + "\n//\n") if len(text.split("\n\n")) <= 3 else text
@@ -1551,6 +1553,45 @@ def ref_alimask_pp(rng, i):
     # every sequence filtered away / a broken base pair in a kept column is a legitimate refusal
     return {"name": "ref-alimaskpp-%d" % i, "ref": True, "sticky": 1, "may_fail": True, "nopred_ok": True,
             "ops": [op_file("in.sto", text), op_run("esl-alimask", args + ["in.sto"])] + cats}
+
+
+def _realign(rng, s_, rf):
+    """the same residues placed differently: each residue moves to a neighbouring gap with a small probability"""
+    l = list(s_)
+    for k in range(len(l) - 1):
+        if rng.random() < 0.15:
+            if l[k] not in "-." and l[k + 1] in "-.": l[k], l[k + 1] = l[k + 1], l[k]
+            elif l[k] in "-." and l[k + 1] not in "-.": l[k], l[k + 1] = l[k + 1], l[k]
+    return "".join(l)
+
+
+def ref_compalign(rng, i):
+    """esl-compalign [-c]: a test alignment of the same sequences against the trusted one (same number of RF consensus columns, residues
+    shifted between match and insert columns), 1-3 alignment pairs per file (the name column never shrinks again), sequences without
+    residues in insert columns (0/0 = -nan in the totals), long names"""
+    abc = rng.choice(["ACGU", DNA, AMINO])
+    nali = rng.choice([1, 1, 2, 3])
+    want_pp = rng.random() < 0.4
+    ktext = ttext = ""
+    for a in range(nali):
+        rows, _ = wide_rows(rng, abc=abc, nseq=rng.choice([1, 2, 3, 5]), alen=rng.choice([6, 20, 45, 61, 130]), longnames=rng.random() < 0.4, gaps=rng.choice(["-", "-."]))
+        rows = [("%s.%d" % (n, a + 1), s_) for n, s_ in rows]
+        alen = len(rows[0][1])
+        rf = "".join("x" if rng.random() < rng.choice([0.7, 1.0]) else "." for _ in range(alen))
+        if "x" not in rf: rf = "x" + rf[1:]
+        w = rng.random()
+        trows = rows if w < 0.25 else [(n, _realign(rng, s_, rf)) for n, s_ in rows]
+        trf = rf
+        if rng.random() < 0.3:      # the test alignment has another width: a gap column inserted (not an RF column)
+            k = rng.randrange(alen + 1); trows = [(n, s_[:k] + "-" + s_[k:]) for n, s_ in trows]; trf = trf[:k] + "." + trf[k:]
+        grpp = None
+        if want_pp:      # -p: every test sequence carries a PP line, a class under every residue
+            grpp = {k: "".join("." if c in "-._~" else rng.choice("0123456789****") for c in s_) for k, (n, s_) in enumerate(trows)}
+        ktext += sto_text_blocks(rows, rng.choice([alen, 200, 50]), rf=rf, ident=rng.choice([None, "k%d" % a]))
+        ttext += sto_text_blocks(trows, rng.choice([len(trf), 200, 50]), rf=trf, grpp=grpp)
+    args = [ABCFLAG[abc]] + (["-c"] if rng.random() < 0.35 else []) + (["-p"] if want_pp and rng.random() < 0.85 else [])
+    return {"name": "ref-compalign-%d" % i, "ref": True, "sticky": 2,
+            "ops": [op_file("k.sto", ktext), op_file("t.sto", ttext), op_run("esl-compalign", args + ["k.sto", "t.sto"])]}
 
 
 def ref_weight(rng, i):
@@ -2257,7 +2298,7 @@ def sweep_cases(ctx):
     return out
 
 
-REF_GENERATORS = [("esl-alimask -p", ref_alimask_pp), ("multi-alignment files", ref_multi_ali), ("esl-compstruct", ref_compstruct), ("esl-alistat exact", ref_alistat_exact), ("esl-afetch exact", ref_afetch_exact), ("esl-reformat msa->fasta", ref_reformat_msa2fasta), ("esl-reformat hmmpgmd", ref_hmmpgmd), ("esl-sfetch afa", ref_sfetch_afa), ("esl-alistat info", ref_alistat_info), ("small modes", ref_small), ("esl-afetch -f", ref_afetch_multi), ("esl-alimask", ref_alimask), ("esl-alimanip", ref_alimanip), ("easel index", ref_index), ("easel filter", ref_filter), ("esl-weight", ref_weight), ("esl-afetch", ref_afetch), ("roundtrip", ref_roundtrip), ("esl-alistat", ref_alistat), ("esl-translate", ref_translate), ("esl-sfetch", ref_sfetch), ("esl-seqstat", ref_seqstat), ("esl-alirev", ref_alirev), ("esl-alipid", ref_alipid),
+REF_GENERATORS = [("esl-compalign", ref_compalign), ("esl-alimask -p", ref_alimask_pp), ("multi-alignment files", ref_multi_ali), ("esl-compstruct", ref_compstruct), ("esl-alistat exact", ref_alistat_exact), ("esl-afetch exact", ref_afetch_exact), ("esl-reformat msa->fasta", ref_reformat_msa2fasta), ("esl-reformat hmmpgmd", ref_hmmpgmd), ("esl-sfetch afa", ref_sfetch_afa), ("esl-alistat info", ref_alistat_info), ("small modes", ref_small), ("esl-afetch -f", ref_afetch_multi), ("esl-alimask", ref_alimask), ("esl-alimanip", ref_alimanip), ("easel index", ref_index), ("easel filter", ref_filter), ("esl-weight", ref_weight), ("esl-afetch", ref_afetch), ("roundtrip", ref_roundtrip), ("esl-alistat", ref_alistat), ("esl-translate", ref_translate), ("esl-sfetch", ref_sfetch), ("esl-seqstat", ref_seqstat), ("esl-alirev", ref_alirev), ("esl-alipid", ref_alipid),
                   ("esl-seqrange", ref_seqrange), ("esl-selectn", ref_selectn), ("esl-mask", ref_mask),
                   ("esl-reformat", ref_reformat), ("esl-shuffle", ref_shuffle), ("easel downsample", ref_downsample)]
 
@@ -2341,13 +2382,37 @@ def corpus_cases(ctx):
     out.append({"name": "corpus-regress-2ee6f53-alimask-p-bad-ppchar", "expect_err": True,
                 "ops": [op_file("pp.sto", "# STOCKHOLM 1.0\ns1         ACGU\n#=GR s1 PP 9x8*\ns2         AC-U\n#=GR s2 PP 99.*\n//\n"),
                         op_run("esl-alimask", ["-p", "--rna", "pp.sto"])]})
-    # the text-mode Clustal writer on an alignment with ZERO columns: "zero malloc disallowed" (round 4; known finding until the proposed patch
-    # C13-clustal-write-zero-columns lands)
-    out.append({"name": "corpus-clustal-zero-columns-alimask",
+    # the text-mode Clustal writer on an alignment with ZERO columns aborted with "zero malloc disallowed" (round 4; repaired in fc170bb):
+    # both tools now write the empty alignment, and the reference predicts it
+    out.append({"name": "corpus-regress-fc170bb-clustal-zero-columns-alimask", "ref": True, "nopred_ok": True,
                 "ops": [op_file("a.sto", "# STOCKHOLM 1.0\ns1 AC-U\ns2 -CGU\n//\n"), op_file("m0", "0000\n"),
                         op_run("esl-alimask", ["--rna", "--outformat", "clustal", "a.sto", "m0"])]})
-    out.append({"name": "corpus-clustal-zero-columns-reformat",
+    out.append({"name": "corpus-regress-fc170bb-clustal-zero-columns-reformat", "ref": True, "nopred_ok": True,
                 "ops": [op_file("g.sto", "# STOCKHOLM 1.0\ns1 A--U\ns2 -CG-\n//\n"), op_run("esl-reformat", ["--nogap", "clustal", "g.sto"])]})
+    out.append({"name": "corpus-clustal-zero-columns-predicted", "ref": True,
+                "ops": [op_file("a.sto", "# STOCKHOLM 1.0\ns1 AC-U\ns2 -CGU\n//\n"), op_file("m0", "0000\n"),
+                        op_run("esl-alimask", ["--rna", "--informat", "stockholm", "--outformat", "clustal", "a.sto", "m0"]),
+                        op_file("g.sto", "# STOCKHOLM 1.0\ns1 A--U\ns2 -CG-\n//\n"),
+                        op_run("esl-reformat", ["--nogap", "--informat", "stockholm", "clustal", "g.sto"])]})
+    # esl-compalign -p with PP lines for some sequences only: NULL ta->pp[i] dereferenced (round 4; known finding until C13-compalign-p-missing-pp lands)
+    out.append({"name": "corpus-compalign-p-missing-pp",
+                "ops": [op_file("k.sto", "# STOCKHOLM 1.0\ns1         ACGU\ns2         AC-U\n#=GC RF    xxxx\n//\n"),
+                        op_file("t.sto", "# STOCKHOLM 1.0\ns1         ACGU\n#=GR s1 PP 9*8*\ns2         AC-U\n#=GC RF    xxxx\n//\n"),
+                        op_run("esl-compalign", ["-p", "--rna", "k.sto", "t.sto"])]})
+    # esl-alimanip --trim <Stockholm file with #=GR lines>: esl_sq_Copy text -> digital, xr[] one byte short (round 4, thorough tier; known finding
+    # until C13-sq-copy-xr-alloc lands); the witness file is the tree's own esl_msa_testfiles/stockholm/stockholm.good.1
+    g1 = os.path.join(getattr(ctx, "c13_src", "") or "", "esl_msa_testfiles", "stockholm", "stockholm.good.1")
+    if os.path.exists(g1):
+        t1 = open(g1, "rb").read()
+        out.append({"name": "corpus-alimanip-trim-gr-markup", "ops": [op_file("in0", t1), op_run("esl-alimanip", ["--trim", "in0", "-"], stdin=t1)]})
+    # round 4, thorough tier with every tool in the seed-dependent stream: esl-alimanip --c-mx double fclose; esl-sfetch with an unaligned
+    # --informat on a file whose SSI index was made from an alignment ("bad offset" exception). Known findings until the proposed patches land.
+    out.append({"name": "corpus-alimanip-cmx-double-fclose",
+                "ops": [op_file("aln.sto", "# STOCKHOLM 1.0\n\ns1 ACGU\ns2 ACGA\ns3 UCGA\n#=GC RF xxxx\n//\n"),
+                        op_run("esl-alimanip", ["--c-mx", "out.mx", "--cn-id", "2", "--rna", "aln.sto"])]})
+    out.append({"name": "corpus-sfetch-index-format-mismatch",
+                "ops": [op_file("in0", "# STOCKHOLM 1.0\n\nseq1 GAATTC\nseq2 GAATTC\n//\n"), op_run("esl-sfetch", ["--index", "in0"]),
+                        op_run("esl-sfetch", ["--informat", "ddbj", "-n", "1", "in0", "seq1"])]})
     for nm, commit, ops in RETIRED_WITNESSES:
         out.append({"name": "corpus-regress-%s-%s" % (commit, nm), "ops": list(ops)})
     # invalid arguments on valid files: a non-zero exit status with a diagnostic is REQUIRED (a tool that silently
